@@ -30,6 +30,20 @@ ASSUMPTIONS = ["RandomState is the only source of nondeterminism in the crate (n
                "diagnostic TEXT of rejected programs may legitimately vary; only verdict and emitted bytes are compared"]
 
 
+def type_expression_programs():
+    """every union of two members drawn from a depth-2 type grammar (primitives, tuples and lists whose
+    argument is a primitive or a union of two primitives), written as parameter, return and variable
+    annotation: the printed member order of nested unions must not follow a hash order"""
+    prims = ["Int", "Str", "Float"]
+    args = prims + ["{%s, %s}" % p for p in itertools.combinations(prims, 2)]
+    members = list(prims) + ["(%s, Int)" % a for a in args] + ["List[%s]" % a for a in args]
+    out = []
+    for a, b in itertools.combinations(members, 2):
+        u = "{%s, %s}" % (a, b)
+        out.append(("tyexpr:%s" % u, "def f(x: %s) -> Int => 1\ndef g(x: Int, y: %s) => print(1)\n" % (u, u)))
+    return out
+
+
 def order_programs():
     """programs biased to order-sensitive constructs"""
     out = []
@@ -52,6 +66,7 @@ def order_programs():
         a, b, c = combo
         out.append(("union3:%s,%s,%s" % combo, "class A\nclass B\ndef n := 1\ndef x := match n\n    1 => %s\n    2 => %s\n    _ => %s\ndef y: {%s, %s, %s} := x\n" % (tys[a], tys[b], tys[c], a, b, c)))
         out.append(("union3-param:%s,%s,%s" % combo, "class A\nclass B\ndef f(p: {%s, %s, %s}) => print(1)\nf(%s)\n" % (a, b, c, tys[a])))
+    out.extend(type_expression_programs())
     out.append(("nullable-union", "def n := 1\ndef x := match n\n    1 => 1\n    2 => None\n    _ => \"s\"\n"))
     # several classes, two parents, same-named generic / non-generic classes, tuples, dicts
     out.append(("two-parents", "class P1\n    def a(self) -> Int => 1\n    def s(self) -> Int => 1\nclass P2\n    def b(self) -> Int => 2\n    def s(self) -> Int => 2\nclass Q: P1, P2\n    def c(self) -> Int => self.a() + self.b()\ndef q := Q()\nprint(q.s())\n"))
